@@ -337,3 +337,37 @@ def run_unconditional_rule(run, rule_id="F-VISIT"):
     if n < 30:
         raise AnalysisError(f"{rule_id}: only {n} operand presentations found")
     run.end()
+
+
+
+def run_assignment_siblings_rule(run, rule_id="F-ROLE.siblings"):
+    """the three assignment statements present their operands identically (only the target's flag differs): a container
+    kind handled element-wise by one but not by another makes operands of that kind invisible to every traversal"""
+    from ..astutil import norm
+    run.begin(rule_id, "SignalAssignment / SignalPush / VariableAssignment.visit_objects are identical up to the target's access flag", floor=2)
+    m = run.idx.mod(IRR)
+    import copy as _copy
+
+    class _N(ast.NodeTransformer):
+        def visit_Attribute(self, n):
+            self.generic_visit(n)
+            if dotted(n) == "AccessFlags.PUSH":
+                return ast.copy_location(ast.Attribute(value=n.value, attr="WRITE", ctx=n.ctx), n)
+            return n
+    ref = None
+    for cname in ("SignalAssignment", "SignalPush", "VariableAssignment"):
+        f = m.func(f"{cname}.visit_objects")
+        body = [_N().visit(_copy.deepcopy_noattr(s)) if hasattr(_copy, "deepcopy_noattr") else _N().visit(ast.parse(src(s)).body[0]) for s in f.node.body]
+        text = "\n".join(norm(s) for s in body)
+        if ref is None:
+            ref = (cname, text)
+            continue
+        ok = text == ref[1]
+        diff = ""
+        if not ok:
+            for a, b in zip(text.split("\n"), ref[1].split("\n")):
+                if a != b:
+                    diff = f"{a[:70]} <-> {b[:70]}"
+                    break
+        run.ob(ok, f"{cname}.visit_objects", file=m.rel, line=f.node.lineno, detail=f"same-as-{ref[0]}", expected=f"identical to {ref[0]}.visit_objects up to the target flag", found="identical" if ok else "differs: " + diff)
+    run.end()
